@@ -321,7 +321,7 @@ theorem C13_layout_consistent (std : List String) (f : FontIn) (file : Bytes) (p
     obtain ⟨fx, sc⟩ := v
     rw [hp] at h
     simp only at h
-    cases hl : writeLoop (mkBlobs std f.ros.isSome fx sc) sc.num (writeFuel std f.ros.isSome fx sc) (cumsum (initialBlobs fx)) 0 with
+    cases hl : writeLoop (mkBlobs std f.ros.isSome fx sc) sc.num (writeFuel fx) (cumsum (initialBlobs fx)) 0 with
     | none => rw [hl] at h; cases h
     | some r =>
       obtain ⟨blobs, offs, k⟩ := r
@@ -677,27 +677,24 @@ example : readFont tinyTables
 /-! ### the offset fixed point of `Write` settles -/
 
 /-- `C13_write_converges`.  The loop `for { …; if done { break } }` of `(*Font).Write` has no bound in
-the Go code; the model runs it with fuel `writeFuel` (a function of the font).  For EVERY font
-(no domain restriction) for which the part of `Write` before the loop succeeded (`prepare`) and whose
-Top DICT, string INDEX and FDArray fit an INDEX with five-byte offset operands (`hfit`; otherwise the Go
-code panics in `cffIndex.encode`), the loop reaches its fixed point: the model returns a file, and
-the number of passes `k` is at most the distance between the position of the last section when
-every offset operand has its longest form and its position after the first pass, plus two (18 for
-the two-glyph simple font below, 34 for the CID-keyed example with two FDs; the operands are the only
-thing that can grow, by at most four bytes each, plus the offSize bytes of two INDEXes).
+the Go code; the model runs it with fuel `writeFuel` = 40 + 15·(number of private DICTs).  For EVERY
+font (no domain restriction) for which the part of `Write` before the loop succeeded (`prepare`) and
+whose Top DICT, string INDEX and FDArray fit an INDEX with five-byte offset operands (`hfit`;
+otherwise the Go code panics in `cffIndex.encode`), the loop reaches its fixed point: the model
+returns a file (never the out-of-fuel outcome) after at most 39 + 15·(number of private DICTs) passes.
 Reason (Proofs/CffConverge.lean): section sizes depend on the offsets only through the encoded
 lengths of the offset operands (Top DICT: charset, Encoding, CharStrings, FDSelect, FDArray, Private
 size and offset; every Font DICT: Private size and offset; every Private DICT: Subrs, a difference
 of two offsets) and through the offSize of two INDEXes, all monotone (`lenI_mono`,
 `encodeDictS_le`, `index_le`); offsets and their differences are sums of section sizes; so
-every pass is pointwise at least the previous one (`mkBlobs_le`), and a pass that is not the
-last moves the last section by at least one byte (`grows_of_not_same`). -/
+every pass is pointwise at least the previous one (`mkBlobs_le`), a pass that is not the last
+moves the last section by at least one byte (`grows_of_not_same`), and the last section cannot
+move further than 37 + 15 bytes per private DICT beyond its place after the first pass
+(`lastSection_slack`: four bytes per operand, three per INDEX offset). -/
 theorem C13_write_converges (std : List String) (f : FontIn) (fx : Fixed) (sc : Secs)
     (hprep : prepare std f = .ok (fx, sc))
     (hfit : mkBlobsFits std f.ros.isSome fx sc (bigOffs sc.num) = true) :
-    ∃ file k, writeFont std f = .ok (file, k) ∧
-      k + secPos (mkBlobs std f.ros.isSome fx sc (cumsum (initialBlobs fx))) (sc.num - 1)
-        ≤ secPos (mkBlobs std f.ros.isSome fx sc (bigOffs sc.num)) (sc.num - 1) + 2 :=
+    ∃ file k, writeFont std f = .ok (file, k) ∧ k ≤ 39 + 15 * f.privs.length :=
   writeFont_ok std f fx sc hprep hfit
 
 /-- `C13_font_roundtrip` without the hypothesis "Write returned a file": for a font in the domain
